@@ -357,6 +357,11 @@ func genForest(r *Rng, o ForestOpts) *Forest {
 			depth[e.Name] = depth[issuer.Name] + 1
 		}
 		e.Subject = genSubject(r, e.Name)
+		if len(f.Ents) > 0 && r.Chance(1, 20) {
+			// two entities may carry the same subject (a re-keyed CA next to its predecessor, a renewed
+			// server certificate): they are told apart by alias, not by name
+			e.Subject = append([]RDN(nil), Pick(r, f.Ents).Subject...)
+		}
 		e.KeyAlg = genKeyAlg(r, o.Mix)
 		signerFam := keyFamily(e.KeyAlg)
 		if issuer != nil {
